@@ -162,15 +162,10 @@ def attribute(side, probe, verdict, err):
     """-> finding key for a hang / crash, from the stack: the innermost flagged loop (hang) or unguarded recursive function (overflow)"""
     frames = fl.resolve_stack(probe, verdict, err)
     pf = [(fn, ln) for fn, file, ln in frames if file == 'parser.c']
-    if verdict.startswith('hang'):
-        for fn, ln in pf:
-            for l in side['loops']:
-                if l['fn'] == fn and l['kind'] == 'cursor' and l.get('line') and l.get('end_line') and l['line'] <= ln <= l['end_line'] and loop_is_flagged(l):
-                    return 'c09:loop:%s#%d' % (fn, l['ord']), frames
-        return None, frames
-    overflow = 'stack-overflow' in err or verdict.startswith('crash sig=11')
+    overflow = 'stack-overflow' in err or (verdict.startswith('crash sig=11') and 'runtime error:' not in err and 'ERROR: AddressSanitizer' not in err)
     if not overflow:
-        # a sanitizer report: key = kind of report + first frame inside the repository's sources
+        # a sanitizer report (also when the wall-clock limit fired while the report was being printed):
+        # key = kind of report + first frame inside the repository's sources
         m = re.search(r'ERROR: AddressSanitizer: ([A-Za-z-]+)', err)
         kind = m.group(1) if m else ('ubsan' if 'runtime error:' in err else None)
         if kind:
@@ -178,6 +173,17 @@ def attribute(side, probe, verdict, err):
             fm = re.search(r'#\d+ 0x[0-9a-f]+ in (\w+) /repo/src/', tail) or re.search(r'#\d+ 0x[0-9a-f]+ in (\w+) \S*/src/', tail)
             if fm:
                 return 'c09:san:%s:%s' % (kind, fm.group(1)), frames
+            if kind == 'ubsan':
+                fm = re.search(r'/src/(\w+)\.c:(\d+):\d+: runtime error', err)
+                for fn, file, ln in frames:
+                    if fm and file == fm.group(1) + '.c' and ln == int(fm.group(2)):
+                        return 'c09:san:ubsan:%s' % fn, frames
+    if verdict.startswith('hang'):
+        for fn, ln in pf:
+            for l in side['loops']:
+                if l['fn'] == fn and l['kind'] == 'cursor' and l.get('line') and l.get('end_line') and l['line'] <= ln <= l['end_line'] and loop_is_flagged(l):
+                    return 'c09:loop:%s#%d' % (fn, l['ord']), frames
+        return None, frames
     if overflow:
         cyc = cycle_functions(side)
         cnt = {}
@@ -255,7 +261,7 @@ def run(ck):
         for name, s in ladders(d).items():
             lcases.append(('ladder:%s:%d' % (name, d), s.encode()))
     lcases.append(('ladder:else-if:166000', ladders(166000)['else-if'].encode()))
-    lans = fl.run_probe(probes['asan'], [('front', 8000, b) for _, b in lcases], jobs=14, timeout=1200)
+    lans = fl.run_probe(probes['asan'], [('front', 8000 if ck.thorough else 5000, b) for _, b in lcases], jobs=14, timeout=1200)
     for (tag, b), a in zip(lcases, lans):
         ck.count(('ladder', tag), nontrivial=True)
         st = {}
@@ -404,7 +410,7 @@ def model_witnesses(ck, ref, probe):
     W = 'let v : int = '
     srcs = [W + '( + 1 else )', W + '(+ 1 ' * 1001 + '1' + ')' * 1001, W + '(+ 1 ' * 999 + '1' + ')' * 999, W + '(' * 1001 + '1 + 2' + ')' * 1001,
             W + '( f 1 else )', W + '( + 1 2 )', W + '( + 1 ( f ] ) )', W + '( not )', W + '( - - - 1 )', W + '( + ( + 1 else']
-    real = [fl.split_answer(a)[0] for a in fl.run_probe(probe, [('expr', 3000, x) for x in srcs], jobs=2)]
+    real = [fl.split_answer(a)[0] for a in fl.run_probe(probe, [('expr', 1200, x) for x in srcs], jobs=5)]
     model = vlib.run_lines(ref, ['expr ' + fl.hx(x) for x in srcs], timeout=300)
     agree = 0
     for x, r, m in zip(srcs, real, model):
@@ -437,7 +443,7 @@ def nano_virt_sample(ck, cases, lcases):
             tag, src = sample[k]
             d = os.path.join(tmp, str(k)); os.makedirs(d)
             open(os.path.join(d, 's.nano'), 'wb').write(src)
-            rc, o, e = vlib.sh([b.bin('nano_virt'), 's.nano', '--emit-nvm', '-o', 'x.nvm'], timeout=8, cwd=d, env=env)
+            rc, o, e = vlib.sh([b.bin('nano_virt'), 's.nano', '--emit-nvm', '-o', 'x.nvm'], timeout=5, cwd=d, env=env)
             return k, rc, e
         with ThreadPoolExecutor(12) as ex:
             for k, rc, e in ex.map(one, range(len(sample))):
